@@ -34,7 +34,10 @@ for d in sorted(os.listdir(seeded)):
     m = json.load(open(mp)); m['caught_by'] = caught; m['check_failed_closed'] = failed
     json.dump(m, open(mp, 'w'), indent=1)
 mp = os.path.join(seeded, 'MATRIX.json')
-old = json.load(open(mp)) if os.path.exists(mp) and only else {}
-old.update(res)
-json.dump(old, open(mp, 'w'), indent=1, sort_keys=True)
+import fcntl
+with open(mp + '.lock', 'w') as lk:      # several workers (one scratch worktree each) may finish at the same time
+    fcntl.flock(lk, fcntl.LOCK_EX)
+    old = json.load(open(mp)) if os.path.exists(mp) and only else {}
+    old.update(res)
+    json.dump(old, open(mp, 'w'), indent=1, sort_keys=True)
 print(len(old), 'total; missed:', [k for k, v in old.items() if isinstance(v, dict) and not v['caught_by']], '; check_failed:', [k for k, v in old.items() if isinstance(v, dict) and v['check_failed']])
